@@ -2,10 +2,12 @@
 import fractions
 import json
 import os
+import sys
 import warnings
 
 import vlib
 from props import c02_ext as X
+from props import c02_r3 as R
 
 F = fractions.Fraction
 PID = 'C02'
@@ -59,7 +61,7 @@ ASSUMPTIONS = [
     'count is >= 1 before and after the update',
 ]
 
-PARAMS = ['a', 'b', 'c', 'd', 'n0', 'n1']          # time-like a..d, integer-like n0,n1
+PARAMS = ['a', 'b', 'c', 'd', 'n0', 'n1', 't']     # time-like a..d, integer-like n0,n1; t only in the tparam family
 NMEAS = 6
 
 
@@ -556,6 +558,19 @@ def gen_cases(rng, tier, ctx):
         cases.append(dict(c, side='corr'))
         cases.append(dict(c, side='spec'))
         k += 1
+    # round 3: aliasing / repeated calls / rebound loop index / coinciding and swapped names / a parameter called t
+    C = sys.modules[__name__]
+    n_share, n_rebind, n_rename, n_tparam = (90, 60, 60, 25) if tier == 'quick' else (2500, 1500, 1500, 400)
+    fam = ([R.gen_share(rng, g, C) for _ in range(n_share)] + [R.gen_rebind(rng, g, C) for _ in range(n_rebind)]
+           + [R.gen_rename(rng, g, C) for _ in range(n_rename)] + [R.gen_tparam(rng, g, C) for _ in range(n_tparam)])
+    cases.extend(fam)
+    for c in fam[::6 if tier == 'quick' else 4]:       # the same, call by call on the instrumented builder
+        cases.append(dict(c, kind='trace', twice=False))
+    enum3 = R.enum_alias(C) + R.enum_rebind(C) + R.enum_rename(C)
+    if tier != 'thorough':
+        rng.shuffle(enum3)
+        enum3 = enum3[:140]
+    cases.extend(enum3)
     rws = X.enum_rw()
     if tier != 'thorough':
         rng.shuffle(rws)
@@ -591,8 +606,10 @@ def _num(s):
     return int(f) if f.denominator == 1 else float(f)
 
 
-def build_pt(t, singles):
-    """construct the qupulse pulse template of a JSON tree; identifiers of 'single' members are collected in singles"""
+def build_pt(t, singles, share=False):
+    """construct the qupulse pulse template of a JSON tree; identifiers of 'single' members are collected in singles.
+    share=True: structurally equal subtrees become THE SAME template object (aliasing inside one tree)"""
+    memo = {} if share else None
     from qupulse.pulses import (ConstantPT, TablePT, PointPT, FunctionPT, AtomicMultiChannelPT, SequencePT, RepetitionPT,
                                 ForLoopPT, MappingPT, ParallelChannelPT)
     from qupulse.pulses.time_reversal_pulse_template import TimeReversalPulseTemplate
@@ -602,6 +619,14 @@ def build_pt(t, singles):
         return [(n, e_str(b), e_str(l)) for n, b, l in t['ms']]
 
     def go(t, ident=None):
+        if memo is None:
+            return go1(t, ident)
+        key = (json.dumps(t, sort_keys=True), ident)
+        if key not in memo:
+            memo[key] = go1(t, ident)
+        return memo[key]
+
+    def go1(t, ident=None):
         k = t['k']
         kw = {'identifier': ident} if ident else {}
         if k == 'atom':
@@ -636,7 +661,7 @@ def build_pt(t, singles):
         if k == 'single':
             ident = 'sw%d' % len(singles)
             singles.append(ident)
-            return go(t['body'], ident)
+            return go1(t['body'], ident)
         if k == 'pass':
             inner = go(t['body'])
             if t['how'] == 'par':
@@ -690,32 +715,49 @@ def run_impl(case):
                 if case['kind'] == 'loop':
                     loop = build_loop(case['loop'])
                     obs = {'dur': vlib.frac_json(loop.duration), 'ws': _windows(loop), 'wrev': None, 'wclean': None}
+                    obs['ws_again'] = _windows(loop)        # the query must not change what it reports
                     if not _has_empty(case['loop']):
                         r = build_loop(case['loop'])
                         r.reverse_inplace()
                         obs['wrev'] = _windows(r)
+                        r.reverse_inplace()                 # reversing twice gives the original windows back
+                        obs['wrev2'] = _windows(r)
                     c = build_loop(case['loop'])
                     c.cleanup()
                     obs['wclean'] = _windows(c)
                     obs['durclean'] = vlib.frac_json(c.duration)
                     return obs
                 singles = []
-                pt = build_pt(case['pt'], singles)
+                pt = build_pt(case['pt'], singles, case.get('share', False))
                 env = {k: _num(v) for k, v in case['env'].items()}
+                for k in case.get('drop_params', []):       # missing-parameter cases
+                    env.pop(k, None)
                 mm = case['mm']
                 if mm is not None:
                     mm = dict(mm)
                     if None in pt.measurement_names:
                         mm[None] = None
+                first = None
+                if case.get('twice'):
+                    # create_program twice on the same template object: the SECOND program is the observation
+                    try:
+                        p1 = pt.create_program(parameters=dict(env), measurement_mapping=None if mm is None else dict(mm),
+                                               to_single_waveform=set(singles))
+                        first = ['none'] if p1 is None else [vlib.frac_json(p1.duration), _windows(p1)]
+                    except vlib.Timeout:
+                        raise
+                    except Exception as e:
+                        first = ['rejected', type(e).__name__]
                 try:
                     prog = pt.create_program(parameters=env, measurement_mapping=mm, to_single_waveform=set(singles))
                 except vlib.Timeout:
                     raise
                 except Exception as e:      # any refusal; whether refusing is legitimate is decided by check_spec
-                    return {'rejected': type(e).__name__}
+                    return {'rejected': type(e).__name__, 'first': first}
                 if prog is None:
-                    return {'none': True}
-                obs = {'dur': vlib.frac_json(prog.duration), 'ws': _windows(prog)}
+                    return {'none': True, 'first': first}
+                obs = {'dur': vlib.frac_json(prog.duration), 'ws': _windows(prog), 'first': first}
+                obs['ws_again'] = _windows(prog)
                 # second observation point of the property: plotting.render(..., render_measurements=True)[2]
                 from qupulse.plotting import _render_loop
                 try:
@@ -922,7 +964,7 @@ def histogram_keys(case, obs):
                                       'same' if sorted(map(tuple, obs['after']['ws'])) == sorted(map(tuple, obs['ws0']))
                                       else 'windows-differ'))
         return keys
-    keys = [case['kind'], 'obs:' + ('rejected:' + obs['rejected'] if 'rejected' in obs else
+    keys = [case['kind']] + (['family:' + case['family']] if case.get('family') else []) + ['obs:' + ('rejected:' + obs['rejected'] if 'rejected' in obs else
                                     'none' if obs.get('none') else
                                     'crash' if 'crash' in obs or 'hang' in obs else 'program')]
     if 'wsr_skipped' in obs:
@@ -942,6 +984,10 @@ def histogram_keys(case, obs):
         keys.append('depth:%d' % min(depth(case['pt']), 8))
         if has_rev_over_rep(case['pt']):
             keys.append('rev_over_rep')
+        if case.get('share'):
+            keys.append('shared-objects')
+        if case.get('twice'):
+            keys.append('create_program-twice')
         if case['mm'] is None:
             keys.append('mm:default')
         elif any(v is None for v in case['mm'].values()):
@@ -990,6 +1036,15 @@ def classify(case, obs):
 
 def py_spec(case, obs):
     """the observation points of the property report the same windows (the first one is judged in Coq)"""
+    if obs.get('ws_again') is not None and obs['ws_again'] != obs['ws']:
+        return 'get_measurement_windows() called twice on the unchanged program reports different windows'
+    if obs.get('wrev2') is not None and obs['wrev2'] != obs['ws']:
+        return 'reverse_inplace() applied twice does not give the original windows back'
+    if obs.get('first') is not None:
+        second = (['rejected', obs['rejected']] if 'rejected' in obs else ['none'] if obs.get('none')
+                  else [obs['dur'], obs['ws']])
+        if obs['first'] != second:
+            return 'create_program called twice on the same template object gives different programs'
     if 'wsr' in obs and obs['wsr'] != obs['ws']:
         return 'plotting._render_loop reports other measurement windows than Loop.get_measurement_windows()'
     if 'wsp' in obs and obs['wsp'] != obs['ws']:
